@@ -246,9 +246,22 @@ def check_rerender(ctx, case):
         return io
 
     if kind == "table":
-        comp = Table(getattr(TableStyle, case["style"])())
-        comp.set_header_row(["A", "Column B", "C"])
-        rows = [["x", "some longer text that will have to be wrapped " * 3, "1"], ["y", "short", "22"]]
+        from clikit.api.formatter import Style
+
+        from vf import markup as mk
+
+        tstyle = getattr(TableStyle, case["style"])()
+        styled = case.get("styled", 0)  # bit 0: cell style, bit 1: header cell style, bit 2: border style
+        if styled & 1:
+            tstyle.cell_style = Style().fg("yellow")
+        if styled & 2:
+            tstyle.header_cell_style = Style().bold()
+        if styled & 4:
+            tstyle.border_style.style = Style().fg("blue")
+        comp = Table(tstyle)
+        bold = (lambda t: mk.LT + "b" + mk.GT + t + mk.LT + "/b" + mk.GT) if case.get("tagged") else (lambda t: t)
+        comp.set_header_row([bold("A") + " (id)", "Column B", "C"])
+        rows = [["x", "some longer text that will have to be wrapped " * 3, "1"], [bold("y") + " one", "short", "22"]]
         comp.add_rows(rows)
         snapshot = json.dumps(rows)
     elif kind == "paragraph":
@@ -261,16 +274,32 @@ def check_rerender(ctx, case):
         except ValueError as e:
             comp = ExceptionTrace(e)
     outs = []
-    for _ in range(2):
-        io = make_io()
+    shared = make_io()
+    for i in range(4):
+        # renders 0 and 1 on fresh I/Os, renders 2 and 3 on ONE I/O (its formatter is re-used)
+        io = make_io() if i < 2 else shared
         try:
             comp.render(io)
         except Exception as e:
             ctx.fail("rerender", "C17.rerender", case, "render returns", None, exc=e)
             return
         outs.append(io.fetch_output() + io.fetch_error())
+        io.clear_output() if hasattr(io, "clear_output") else None
+        io.clear_error() if hasattr(io, "clear_error") else None
     if outs[0] != outs[1]:
         ctx.fail("rerender", "C17.rerender", case, outs[0], outs[1], sig=kind)
+    elif outs[2] != outs[0] or outs[3] != outs[0]:
+        ctx.fail("rerender", "C17.rerender", case, outs[0], outs[2:], sig=kind + "-same-io")
+    if case.get("ansi") and kind != "trace":
+        # a line written to the used I/O afterwards looks like the same line on a fresh I/O
+        from vf import markup as mk
+
+        line = mk.LT + "b" + mk.GT + "done" + mk.LT + "/b" + mk.GT + " 3 rows"
+        fresh = make_io()
+        shared.write_line(line)
+        fresh.write_line(line)
+        if shared.fetch_output() != fresh.fetch_output():
+            ctx.fail("rerender", "C17.rerender", case, fresh.fetch_output(), shared.fetch_output(), sig=kind + "-line-after")
     if kind == "table" and json.dumps(rows) != snapshot:
         ctx.fail("rerender", "C17.rerender", case, snapshot, json.dumps(rows), sig="table-rows-modified")
 
@@ -343,6 +372,11 @@ def run(ctx):
             for v in ((0, 1, 4) if comp == "trace" else (0,)):
                 for style in (STYLES if comp == "table" else [None]):
                     check_rerender(ctx, {"component": comp, "ansi": ansi, "verbosity": v, "style": style})
+                    if comp == "table":
+                        for styled in range(1, 8):
+                            for tagged in (False, True):
+                                check_rerender(ctx, {"component": comp, "ansi": ansi, "verbosity": v, "style": style,
+                                                     "styled": styled, "tagged": tagged})
     ctx.parallel("shard_styles", [(i, 16) for i in range(16)])
     ctx.exhaustive("styles", True, "all orders of 2-4 of the predefined styles x which one (or none) is customised, plus repeated constructions")
     ctx.hyp_sharded("history", 2400 if quick else 30000, salt=1)
